@@ -116,4 +116,21 @@ Proof.
     apply (read_value_list_written m d e v es vs s (b0 :: k) f He Hes); [|lia|exact Hd].
     simpl in Hr. rewrite <- app_assoc in Hr. exact Hr.
 Qed.
+(* ... and so is a number token *)
+Lemma number_elem_reads (a : byte) (w : list byte) d v :
+  (Nat.eqb a 45 || digit a) = true -> Forall (fun b => is_num b = true) (a :: w) ->
+  number_value float_ok (a :: w) = Some v ->
+  elem_reads (length w + 2) d (a :: w) v.
+Proof.
+  intros Hfirst Hw Hv. split.
+  - exists a, w. split; [reflexivity|].
+    apply orb_prop in Hfirst. destruct Hfirst as [H|H].
+    + apply Nat.eqb_eq in H. subst a. repeat split; lia.
+    + unfold digit in H. apply andb_prop in H. destruct H as [H1 H2]. apply Nat.leb_le in H1, H2.
+      assert (Hin : In a (seq 48 10)) by (rewrite in_seq; lia).
+      cbn in Hin. repeat (destruct Hin as [<-|Hin]; [repeat split; try lia; vm_compute; reflexivity|]). contradiction.
+  - intros f s b0 k Hm Hb0 Hr.
+    apply (read_value_number_written float_ok a w s b0 k f d v Hfirst Hw); [| |exact Hv|exact Hr|lia];
+      destruct Hb0 as [-> | ->]; first [vm_compute; reflexivity | lia].
+Qed.
 End Lists.
